@@ -30,7 +30,8 @@ sample_repr = solvecases.sample_repr
 
 
 def check(case):
-    model, method = case["model"], case["method"]
+    import copy
+    model, method = copy.deepcopy(case["model"]), case["method"]
     names = model["names"]
     classes = ["family:" + model["family"], "method:" + method, "flavour:" + model["flavour"]]
     desc = f"{solvecases.sample_repr(case)}"
@@ -39,16 +40,45 @@ def check(case):
             P, b, built = models.build_problem(model)
         except Exception as ex:
             return Result.discard("build-raises:" + exc_label(ex), classes)
+        param_false = False
+        if case.get("param_con"):
+            # a constraint between parameters only (a precondition such as need <= cap): no variables in it
+            from optyx import Parameter
+            need, cap = Parameter("need", 7.0 if case["param_con"] == "false" else 3.0), Parameter("cap", 5.0)
+            P.subject_to(need <= cap)
+            param_false = case["param_con"] == "false"
+            classes.append("param-only-constraint:" + case["param_con"])
         try:
             sol = P.solve(method=method)
         except Exception as ex:
             classes.append("refused:" + exc_label(ex))
             return Result.discard("method-refuses-model:" + exc_label(ex), classes)
+        if case.get("edit") and sol.status.value == "optimal" and names and all(nm in sol.values for nm in names):
+            # history flavour: tighten a bound so that the point just returned becomes infeasible, solve again
+            i = len(names) // 2
+            xi = sol.values[names[i]]
+            vobj = b.var_objects()[names[i]]
+            lb, ub = model["data"]["bounds"][i]
+            if case["edit"] == "tighten-ub" and (lb is None or lb <= xi - 1.0):
+                vobj.ub = xi - 1.0
+                model["data"]["bounds"][i] = [lb, xi - 1.0]
+                classes.append("edit:tighten-ub")
+            elif case["edit"] == "tighten-lb" and (ub is None or ub >= xi + 1.0):
+                vobj.lb = xi + 1.0
+                model["data"]["bounds"][i] = [xi + 1.0, ub]
+                classes.append("edit:tighten-lb")
+            try:
+                sol = P.solve(method=method)
+            except Exception as ex:
+                return Result.discard("method-refuses-model:" + exc_label(ex), classes)
         classes.append("status:" + sol.status.value)
         classes.append(f"table:{model['family']}/{model['flavour']}/{method}/{sol.status.value}")
-        nontrivial = model["flavour"] == "infeasible" or solvecases.has_active(model)
+        nontrivial = model["flavour"] == "infeasible" or solvecases.has_active(model) or param_false
         if sol.status.value != "optimal":
             return Result.ok(nontrivial, classes)
+        if param_false:
+            return Result.violation(f"optimal-but-parameter-constraint-false:{method}",
+                                    f"status OPTIMAL although the constraint need(7) <= cap(5) cannot hold; {desc}", classes)
         vals = sol.values
         missing = [nm for nm in names if nm not in vals]
         if missing:
